@@ -190,6 +190,21 @@ def sc_epochs(rng, quick):
     return out
 
 
+def sc_data(rng, quick):
+    """C33: data packets of every tail size (header packet + payload on the wire), between keep-alives and other traffic."""
+    out = []
+    sizes = [0, 1, 2, 3, 4, 5, 8, 13, 64] if quick else [0, 1, 2, 3, 4, 5, 6, 7, 8, 9, 13, 31, 64, 257, 1024]
+    seq = []
+    for n in sizes:
+        seq += [("dp", n), ("wait", rng.randint(0, 9))]
+    out.append(("data-packets", bringup() + seq + [("quiet",)]))
+    seq = []
+    for d in range(0, 14, 2 if quick else 1):
+        seq += [("sync", "lc_end", 40), ("wait", d), ("dp", rng.choice([4, 7, 12, 40]))]
+    out.append(("data-vs-keepalive", bringup(cfg={"auto": 1.0}) + seq + [("hdr", "good", 0), ("offer",), ("quiet",)]))
+    return out
+
+
 def sc_retry_down(rng, quick):
     """C39 (witness class of finding C39-retransmission-survives-link-down): the link leaves U0 -- warm reset, or
     recovery because the partner's next LGOOD does not match -- while it is retransmitting after an LBAD (LRTY owed,
@@ -594,7 +609,7 @@ def extra_C44(rep):
 
 
 def extra_C33(rep):
-    _run(rep, "C33", [("flow", lambda rng, q: sc_flow(rng, q, n=8 if q else 40)),
+    _run(rep, "C33", [("flow", lambda rng, q: sc_flow(rng, q, n=6 if q else 40)), ("data", sc_data),
                       ("training", lambda rng, q: sc_training(rng, q)[:7])], ["flow_tx"])
 
 
